@@ -258,6 +258,38 @@ fn const_json<'tcx>(tcx: TyCtxt<'tcx>, owner: DefId, c: &mir::ConstOperand<'tcx>
     let evald = std::panic::catch_unwind(std::panic::AssertUnwindSafe(|| c.const_.eval(tcx, env, c.span)));
     if let Ok(Ok(v)) = evald {
         match v {
+            ConstValue::Scalar(rustc_middle::mir::interpret::Scalar::Ptr(ptr, _)) => {
+                // reference to a (promoted) constant: read the pointee if it is a primitive integer/bool
+                if let ty::Ref(_, inner, _) = ty.kind() {
+                    if matches!(inner.kind(), ty::Int(_) | ty::Uint(_) | ty::Bool) {
+                        let env2 = TypingEnv::fully_monomorphized();
+                        if let Ok(lay) = tcx.layout_of(env2.as_query_input(*inner)) {
+                            let (prov, off) = ptr.into_raw_parts();
+                            if let Some(rustc_middle::mir::interpret::GlobalAlloc::Memory(a)) = tcx.try_get_global_alloc(prov.alloc_id()) {
+                                let a = a.inner();
+                                let start = off.bytes() as usize;
+                                let n = lay.size.bytes() as usize;
+                                if start + n <= a.len() {
+                                    let bytes = a.inspect_with_uninit_and_ptr_outside_interpreter(start..start + n);
+                                    let mut bits: u128 = 0;
+                                    for (i, b) in bytes.iter().enumerate() {
+                                        bits |= (*b as u128) << (8 * i);
+                                    }
+                                    match inner.kind() {
+                                        ty::Int(_) => {
+                                            let sh = 128 - 8 * n as u32;
+                                            let sv = if n == 0 { 0 } else { ((bits << sh) as i128) >> sh };
+                                            o.put("deref_val", J::Int(sv));
+                                        }
+                                        ty::Bool => o.put("deref_val", J::Bool(bits != 0)),
+                                        _ => o.put("deref_val", J::UInt(bits)),
+                                    }
+                                }
+                            }
+                        }
+                    }
+                }
+            }
             ConstValue::Scalar(s) => {
                 if let Ok(si) = s.try_to_scalar_int() {
                     let size = si.size();
